@@ -20,7 +20,7 @@ pub fn c17_tree() -> TreeProp {
     }),
     oracle: Box::new(|c, outs| {
       let mut v = vec![];
-      for ((i, op), o) in c.script.iter().zip(outs) { if let Out::Panic(m) = o { v.push(finding("no-panic", format!("A{i}.{:?} panicked: {}", op, &m[..m.len().min(200)]))); break } }
+      for ((i, op), o) in c.script.iter().zip(outs) { if let Out::Panic(m) = o { v.push(finding("no-panic", format!("A{i}.{:?} panicked: {}", op, trunc(&m, 200)))); break } }
       v
     }),
     project: Box::new(|_, outs| outs.iter().map(|o| if o.is_panic() { "trap".to_string() } else { "ok".to_string() }).collect()),
@@ -110,7 +110,7 @@ pub fn c19_tree() -> TreeProp {
     }),
     oracle: Box::new(|c, outs| {
       let mut v = vec![];
-      for ((i, op), o) in c.script.iter().zip(outs) { if let Out::Panic(m) = o { if m.contains("unsafe precondition") { v.push(finding("unsafe-precondition", format!("A{i}.{:?}: {}", op, &m[..m.len().min(200)]))); break } } }
+      for ((i, op), o) in c.script.iter().zip(outs) { if let Out::Panic(m) = o { if m.contains("unsafe precondition") { v.push(finding("unsafe-precondition", format!("A{i}.{:?}: {}", op, trunc(&m, 200)))); break } } }
       v
     }),
     // which operations violate an unsafe precondition: the model predicts none for trees
